@@ -101,12 +101,36 @@ func (mp MayPanic) indexOK(c *Ctx, f *FuncInfo, e ast.Node) (string, bool) {
 		return why, true
 	}
 	if x, isExpr := e.(ast.Expr); isExpr {
-		if why, ok := mp.IndexOK[f.Name+":~"+CanonExpr(c, x)]; ok {
+		canon := CanonExpr(c, x)
+		if why, ok := mp.IndexOK[f.Name+":~"+canon]; ok {
 			return why, true
+		}
+		// a sub-expression held in a local is canonicalised with parentheses around
+		// its definition: compare without them
+		noParen := strings.NewReplacer("(", "", ")", "")
+		want := noParen.Replace(f.Name + ":~" + canon)
+		for k, why := range mp.IndexOK {
+			if strings.Contains(k, ":~") && noParen.Replace(k) == want {
+				return why, true
+			}
+		}
+		// a site inside an unnamed helper that was taken into the scope from a
+		// function of the table: the helper was extracted from that function
+		root := f
+		for root.Encl != nil {
+			root = root.Encl
+		}
+		for from := mayPanicFrom[root.Name]; from != ""; from = mayPanicFrom[from] {
+			if why, ok := mp.IndexOK[from+":~"+canon]; ok {
+				return why + " (site now in the unnamed helper " + root.Name + ")", true
+			}
 		}
 	}
 	return "", false
 }
+
+// mayPanicFrom: unnamed helper -> the function of the scope it was first reached from.
+var mayPanicFrom = map[string]string{}
 
 func (mp MayPanic) trusted(name string) (string, bool) {
 	if why, ok := mp.Trusted[name]; ok {
@@ -548,6 +572,13 @@ func (mp MayPanic) checkFunc(r *Run, f *FuncInfo, inScope map[string]bool) int {
 				// scope): it is analysed as part of the scope instead of being trusted
 				inScope[name] = true
 				mayPanicPending = append(mayPanicPending, h)
+				caller := f
+				for caller.Encl != nil {
+					caller = caller.Encl
+				}
+				if _, seen := mayPanicFrom[name]; !seen && caller.Name != name {
+					mayPanicFrom[name] = caller.Name
+				}
 			} else {
 				report("call", e, false, fmt.Sprintf("%s is outside the analysed set and not in the trusted table", name))
 			}
